@@ -1,12 +1,14 @@
 CONSTANT MaxLen = 5
 CONSTANT MaxK = 4
 CONSTANT Syms = {"A", "B", "C"}
+CONSTANT NIters = {1, 2, 20}
 SPECIFICATION Spec
 INVARIANT TypeOK
 INVARIANT CallsNeverFail
 INVARIANT ResetIsFresh
 INVARIANT OutputsAsFresh
 INVARIANT ScheduleOK
+INVARIANT PeriodWeights
 INVARIANT StepIsSince
 INVARIANT Export
 PROPERTY ResetRestoresInit
